@@ -42,7 +42,7 @@ type propConfig struct {
 var configs = map[string]*propConfig{
 	"C12": {
 		id: "C12", level: "exploration", checkptr: "1", plain: true, race: true,
-		quickRuns: 14000, thorRuns: 400000, quickRace: 7000, thorRace: 150000,
+		quickRuns: 12000, thorRuns: 400000, quickRace: 6000, thorRace: 150000,
 		memKB: 6 << 20, quickWall: 80 * time.Second, thorWall: 30 * time.Minute, runTimeout: 60 * time.Second,
 		stall: 30 * time.Second, gomaxprocs: 8,
 		rule: "one run = 2..6 tasks (real goroutines, exactly one running, handed off through raw pipe syscalls that ThreadSanitizer cannot see) x 1..6 operations each, drawn from the derived read-only catalogue (every exported package function and every method of the shared value, of its language-value / item-list / id sub-values and of collection paths whose arguments can be synthesised by type, minus the justified mutator list; fmt verbs; decoding of private clean or damaged inputs), on a generated shared value v and a second value w (v itself, the smallest value, or an independent one), under a scheduling policy drawn per run: random walk (switch probability 1/4..1/256 per library statement), d=1..4 preemptions at drawn task-local steps, or PCT with d=1..3 priority change points. distinct = distinct hash of the switch sequence (from,to,site)*; non-trivial = at least one context switch fell inside an operation on the shared value.",
@@ -218,7 +218,9 @@ func check(propID, tier string) int {
 			fatal2("race canary did not fire (exit %d): the race oracle is not live in this binary\n%s", cres.exitCode, tailStr(cres.stderr, 2000))
 		}
 		// the race batch uses run indices disjoint from the plain batch
-		fanOutSeeds(b, sc.simRace, propID, tier, seed^0x5ace, raceRuns, workers, raceEnv, 0, 0, deadline, true, false, cfg.stall)
+		// one child process per 33 consecutive run indices (= c12.ColdEvery): the first run of each
+		// process is a cold-start run
+		fanOutChunks(b, sc.simRace, propID, tier, seed^0x5ace, raceRuns, 33, workers, raceEnv, deadline, true, cfg.stall)
 	}
 	runWall := time.Since(tRun).Seconds()
 
@@ -260,6 +262,7 @@ func check(propID, tier string) int {
 		} else if d.k >= 0 {
 			plan = &core.Plan{Property: propID, Tier: tier, Mode: "", Seed: core.Mix(s, uint64(d.k)), Tape: nil}
 			plan.Mode = "@" + strconv.FormatInt(d.k, 10) // resolved by the child from the run index
+			plan.RunIndex = uint64(d.k)
 		}
 		addViol(class, oracle, detail, plan, bin, nil)
 	}
